@@ -11,7 +11,7 @@
 
 Without GE_CSS_HARNESS the regular harness binary (`geharness run`) is used; it must know `css`.
 """
-import json, os, sys, time
+import json, os, re, sys, time
 
 sys.path.insert(0, os.path.dirname(os.path.dirname(os.path.abspath(__file__))))
 from checklib import core, cssgen, cssoracle  # noqa: E402
@@ -36,9 +36,72 @@ def run_css(cases):
     return [json.loads(l) for l in out]
 
 
-def classes_of(opts, res, well_formed=True):
+CHECKS = dict(cssoracle.ALL_CHECKS)
+
+_P = {"class_prefix": "p"}
+_S = {"class_prefix_sign": "S"}
+_H = {"convert_host": True}
+_I = {"import_sign": "I"}
+# hand-written minimal inputs; each shows its classification on the pinned commit (a fixed
+# defect makes its lines print "no longer triggers")
+EXAMPLES = [
+    ("C08", "ws-lost-in-nested-selector-function", _P, ".x:not(:is(.a .b)){}"),
+    ("C08", "ws-lost-in-at-rule:layer", _P, "@layer l{.a .b{}}"),
+    ("C08", "ws-lost-in-at-rule:container", _P, "@container (min-width:1px){.a .b{}}"),
+    ("C08", "ws-lost-in-at-rule:scope", _P, "@scope (.s){.a .b{}}"),
+    ("C08", "ws-lost-in-at-rule:starting-style", _P, "@starting-style{.a .b{}}"),
+    ("C08", "ws-lost-in-at-rule:media(uppercase)", _P, "@MEDIA screen{.a .b{}}"),
+    ("C08", "ws-lost-in-nested-selector-function+at-prelude:supports", _P, "@supports selector(:is(.a .b)){.c{}}"),
+    ("C08", "ws-lost-in-nested-selector-function+at-prelude:scope", _P, "@scope (:is(.a .b)){.c{}}"),
+    ("C08", "calc-ws-lost-in-nested-paren", {}, ".a{width:calc(1px*(2px + 3px))}"),
+    ("C08", "calc-ws-lost-in-nested-fn:min", {}, ".a{width:calc(1px*min(2px + 3px,4px))}"),
+    ("C08", "calc-ws-lost-in-nested-fn:max", {}, ".a{width:calc(1px*max(2px + 3px,4px))}"),
+    ("C08", "calc-ws-lost-in-nested-fn:clamp", {}, ".a{width:calc(clamp(1px,2px + 3px,4px))}"),
+    ("C08", "calc-ws-lost-in-nested-fn:var", {}, ".a{width:calc(var(--x,1px + 2px))}"),
+    ("C08", "unicode-range-split", {}, "@font-face{unicode-range:U+26}"),
+    ("C09", "class-not-prefixed-in-nested-selector-function", _P, ".x:not(:is(.a)){}"),
+    ("C09", "class-not-prefixed-in-at-rule:layer", _P, "@layer l{.a{}}"),
+    ("C09", "class-not-prefixed-in-at-rule:container", _P, "@container (min-width:1px){.a{}}"),
+    ("C09", "class-not-prefixed-in-at-rule:scope", _P, "@scope{.a{}}"),
+    ("C09", "class-not-prefixed-in-nested-selector-function+at-prelude:scope", _P, "@scope (:is(.a)){}"),
+    ("C09", "class-sign-missing-in-nested-selector-function", _S, ".x:not(:is(.a)){}"),
+    ("C09", "class-sign-missing-in-at-rule:layer", _S, "@layer l{.a{}}"),
+    ("C09", "non-class-ident-prefixed-in-import-layer-name", _P, "@import 'a.css' layer(a.b);"),
+    ("C09", "class-sign-at-non-class-position-in-import-layer-name", _S, "@import 'a.css' layer(a.b);"),
+    ("C09", "non-class-ident-prefixed-in-at-prelude:document", _P, "@document domain(x.com){.a{}}"),
+    ("C10", "int-lost-digits", {}, ".a{z-index:2147483647}"),
+    ("C10", "int-lost-digits", {}, ".a{width:9999999px}"),
+    ("C10", "non-integer-6-digits", {}, ".a{line-height:1.2345678}"),
+    ("C10", "rpx-6-digits", {}, ".a{width:1rpx}"),
+    ("C17", "host-rule-left-in-normal-output-in-at-rule:layer", _H, "@layer l{:host{color:red}}"),
+    ("C17", "host-rule-missing-from-low-output-in-at-rule:layer", _H, "@layer l{:host{color:red}}"),
+    ("C17", "host-combination-left-in-normal-output-in-at-rule:layer", _H, "@layer l{:host .a{color:red}}"),
+    ("C17", "host-combination-warning-missing-in-at-rule:layer", _H, "@layer l{:host .a{color:red}}"),
+    ("C18", "import-url-dropped", _I, "@import url(a.css);"),
+    ("C18", "import-url-dropped", _I, "@import url(\"a.css\") screen;"),
+    ("C18", "import-layer-keyword-as-media", _I, "@import 'a.css' layer;"),
+    ("C19", "map-position-before-comment", {}, ".a/*c*/.b{}"),
+]
+
+
+def check_examples():
+    res = run_css([(o, s) for _, _, o, s in EXAMPLES])
+    n = 0
+    lines = []
+    for (pid, cls, o, s), r in zip(EXAMPLES, res):
+        hit = (pid, cls) in classes_of(o, r)
+        n += hit
+        lines.append("   %-14s %s %-64s %s  %s  ->  %s%s" % ("triggers" if hit else "NO LONGER", pid, cls, json.dumps(o), s, r.get("normal"),
+                                                           (" | low: " + r["low"]) if r.get("low") else ""))
+    return n, lines
+
+
+def classes_of(opts, res, well_formed=True, only=None):
     """{(prop, classification): first problem}"""
-    probs = cssoracle.run_all(opts, res) if well_formed else {"C01": cssoracle.check_c01(opts, res)}
+    if only is not None:
+        probs = {only: CHECKS[only](opts, res)}
+    else:
+        probs = cssoracle.run_all(opts, res) if well_formed else {"C01": cssoracle.check_c01(opts, res)}
     found = {}
     for pid, ps in probs.items():
         for p in ps:
@@ -54,7 +117,78 @@ def is_well_formed(res):
     return all(c[4] for c in res.get("closers_in", []))
 
 
-def shrink(opts, css, key, well_formed, budget=1500):
+def looks_like_css(res):
+    """rough shape test used while shrinking examples (keeps them readable): every rule has a
+    prelude and a block (or `;`), declarations look like `name: value`, `.` `#` `:` are followed
+    by a name in selectors"""
+    if not is_well_formed(res):
+        return False
+    sig = lambda ts: [t for t in ts if t.kind not in ("ws", "comment")]
+
+    def decls(ts):
+        cur = []
+        for t in sig(ts) + [None]:
+            if t is None or t.kind == "semi":
+                if cur:
+                    if cur[0].kind == "at":
+                        pass
+                    elif len(cur) < 3 or cur[0].kind != "ident" or cur[1].kind != "colon":
+                        return False
+                cur = []
+            elif t.kind == "curly" and cur and cur[0].kind == "at":
+                cur = []
+            else:
+                cur.append(t)
+        return True
+
+    def selector(ts):
+        ts = sig(ts)
+        if not ts:
+            return False
+        for a, b in zip(ts, ts[1:] + [None]):
+            if (a.kind == "delim" and a.val in ".#") or a.kind == "colon":
+                if b is None or b.kind not in ("ident", "fn", "colon"):
+                    return False
+            if a.kind in ("fn", "paren") and not selector(a.children):
+                return False
+        return ts[-1].kind != "comma" and not (ts[-1].kind == "delim" and ts[-1].val in ">+~")
+
+    def rules(ts):
+        ts = sig(ts)
+        i = 0
+        while i < len(ts):
+            j = i
+            if ts[i].kind == "at":
+                while j < len(ts) and ts[j].kind not in ("semi", "curly"):
+                    j += 1
+                if j == len(ts):
+                    return False
+                name = ts[i].val.lower()
+                if ts[j].kind == "curly":
+                    if name in cssoracle.RULE_BEARING:
+                        if not rules(ts[j].children):
+                            return False
+                    elif name not in cssoracle.KEYFRAMES and not decls(ts[j].children):
+                        return False
+                elif j == i + 1:
+                    return False
+            else:
+                while j < len(ts) and ts[j].kind != "curly":
+                    j += 1
+                if j == len(ts) or j == i or not selector(ts[i:j]) or not decls(ts[j].children):
+                    return False
+            i = j + 1
+        return True
+
+    return rules(cssoracle.parse_tree(res["tokens_in"]))
+
+
+def family(cls):
+    """classification with the at-rule chain left out (one shrunk example per family is enough)"""
+    return re.sub(r"(at-rule:)[^+ ]+", r"\\1*", cls)
+
+
+def shrink(opts, css, key, well_formed, budget=600):
     """delta-debugging on characters: smallest input (found) that still shows classification `key`
     (and is still well-formed, if the original was)"""
     cur = css
@@ -72,9 +206,9 @@ def shrink(opts, css, key, well_formed, budget=1500):
         used += len(cands)
         hit = None
         for c, res in zip(cands, answers):
-            if well_formed and not is_well_formed(res):
+            if well_formed and not looks_like_css(res):
                 continue
-            if key in classes_of(opts, res, well_formed):
+            if key in classes_of(opts, res, well_formed, only=key[0]):
                 hit = c
                 break
         if hit is not None:
@@ -111,10 +245,35 @@ def fault_injection(clean, rng):
         r2["closers_normal"] = rt["closers_in"]
         found = classes_of(o, r2)
         stats["damaged"] += 1
-        if any(k[0] in ("C08", "C09", "C10", "C17", "C18") for k in found):
+        if any(k[0] in ("C08", "C09", "C10", "C17", "C18", "C19") for k in found):
             stats["damaged_caught"] += 1
         else:
             stats["missed"].append(dict(opts=o, css=s, output=res["normal"], damaged=bad, span=span, found=sorted(found)))
+    # 1b. damaged source maps
+    stats.update(maps=0, maps_caught=0)
+    for o, s, res in clean:
+        m = res.get("map_normal") or []
+        if len(m) < 2:
+            continue
+        k = rng.below(len(m))
+        how = rng.below(4)
+        m2 = [list(x) for x in m]
+        if how == 0:
+            del m2[k]                       # an entry is missing
+        elif how == 1:
+            m2[k][3] += 1 + rng.below(3)    # source column off
+        elif how == 2:
+            m2[k][1] += 1                   # generated column off
+        else:
+            m2[k][2] += 1                   # source line off
+        r2 = {kk: v for kk, v in res.items() if not kk.startswith("_")}
+        r2["map_normal"] = m2
+        found = classes_of(o, r2, only="C19")
+        stats["maps"] += 1
+        if found:
+            stats["maps_caught"] += 1
+        else:
+            stats["missed"].append(dict(opts=o, css=s, output=res["normal"], map=m, damaged_map=m2, how=how, k=k))
     # 2. checking against other options than the ones the output was made with
     for o, s, res in clean:
         r2 = {k: v for k, v in res.items() if not k.startswith("_")}
@@ -189,19 +348,25 @@ def main():
           % (t1 - t0, t2 - t1, len(cases) / max(1e-9, t2 - t1), t3 - t2, len(cases) / max(1e-9, t3 - t2),
              len(cases) / max(1e-9, t3 - t0)))
     fi = fault_injection(clean[:400], rng.fork("fault"))
-    print("fault injection: damaged outputs noticed %d/%d; wrong-options noticed %d/%d"
-          % (fi["damaged_caught"], fi["damaged"], fi["opts_caught"], fi["opts"]))
+    print("fault injection: damaged outputs noticed %d/%d; damaged source maps noticed %d/%d; wrong-options noticed %d/%d"
+          % (fi["damaged_caught"], fi["damaged"], fi["maps_caught"], fi["maps"], fi["opts_caught"], fi["opts"]))
     for m in fi["missed"][:5]:
         print("   MISSED: %s" % json.dumps(m, ensure_ascii=False)[:1500])
+    nex, lines = check_examples()
+    print("hand-written examples: %d/%d show their classification" % (nex, len(EXAMPLES)))
+    print("\n".join(lines))
     print()
     print("%-5s %-82s %7s %6s" % ("prop", "classification", "count", "cases"))
     for (pid, cls), e in sorted(table.items()):
         print("%-5s %-82s %7d %6d" % (pid, cls, e["count"], len(e["cases"])))
     print()
     t4 = time.time()
+    seen_families = set()
     for (pid, cls), e in sorted(table.items()):
         o, s, p, kind = e["example"]
-        if do_shrink:
+        fam = (pid, family(cls))
+        if do_shrink and fam not in seen_families:
+            seen_families.add(fam)
             s2 = shrink(o, s, (pid, cls), kind == "wf")
             res = run_css([(o, s2)])[0]
             p = classes_of(o, res, kind == "wf").get((pid, cls), p)
@@ -212,7 +377,7 @@ def main():
             if p.get(k) is not None:
                 print("   %-8s %s" % (k + ":", json.dumps(p[k], ensure_ascii=False) if not isinstance(p[k], str) else p[k].replace("\n", "\\n")))
         print("   opts:    %s" % json.dumps(o, ensure_ascii=False))
-        print("   css:     %s" % json.dumps(s if len(s) < 600 else s[:600] + "…", ensure_ascii=False))
+        print("   css:     %s" % json.dumps(s if len(s) < 400 else s[:400] + "…", ensure_ascii=False))
     if do_shrink:
         print("(examples shrunk in %.1fs)" % (time.time() - t4))
     return 0
